@@ -45,7 +45,7 @@ func (l *c16log) take() []string {
 }
 
 type c16Svc struct {
-	log      *c16log
+	log       *c16log
 	lastReq   *tpb.Message // object the handler received
 	lastResp  *tpb.Message
 	lastTrail []string // names of the interceptors whose context reached the handler
@@ -131,15 +131,15 @@ func c16Desc(r *rand.Rand, name string) *grpc.ServiceDesc {
 }
 
 type descSnap struct {
-	name     string
-	ht       interface{}
-	meta     interface{}
-	methods  []string
-	mptr     []uintptr
-	streams  []string
-	sptr     []uintptr
-	mSliceP  uintptr
-	sSliceP  uintptr
+	name    string
+	ht      interface{}
+	meta    interface{}
+	methods []string
+	mptr    []uintptr
+	streams []string
+	sptr    []uintptr
+	mSliceP uintptr
+	sSliceP uintptr
 }
 
 func snapDesc(d *grpc.ServiceDesc) descSnap {
